@@ -212,6 +212,7 @@ fn literals(n: &Num, rng: &mut Rng) -> Vec<String> {
 pub fn gen_case(rng: &mut Rng, idx: usize, thorough: bool) -> Value {
     // idx 0..: deterministic families first, then random
     let w = if thorough { 130 } else { 40 };
+    if idx % 6 == 5 { return json!({"kind": "lexi", "seed": rng.next() % 1_000_000_000, "n": if thorough { 3000 } else { 600 }}); }
     match idx % 5 {
         4 => json!({"kind": "dec-near", "seed": rng.next() % 1_000_000_000, "n": if thorough { 400 } else { 120 }}),
         0 => json!({"kind": "int-grid", "lo": -(w as i64) + (idx as i64 / 4) * 7 % 20, "w": w}),
@@ -423,6 +424,41 @@ pub fn run_case(_ctx: &Ctx, case: &Value, tag: usize, rep: &mut Report, mb: &mut
                 }
             }
             rep.sample(json!({"kind": "int-random"}));
+        }
+        "lexi" => {
+            // tie of the Lean model of lexi_x_to_9 / lexi_0_to_x / lexi_range (theorems lexi*_lang) to the code
+            let mut rng = Rng::new(case["seed"].as_u64().unwrap());
+            let digits = |rng: &mut Rng, n: usize| -> String { (0..n).map(|_| char::from(b'0' + [0u8, 0, 1, 4, 5, 8, 9, 9][rng.below(8)])).collect() };
+            let dash = |s: &str| if s.is_empty() { "-".to_string() } else { s.to_string() };
+            let mut push = |kind: u8, a: &str, b: &str, ai: bool, bi: bool, mb: &mut ModelBatch, rep: &mut Report| {
+                rep.evaluations += 1;
+                let r = std::panic::catch_unwind(|| llguidance::verif::verif_lexi(kind, a, b, ai, bi));
+                let got = match r { Ok(Ok(p)) => { rep.nontrivial(format!("lexi|{kind}|{a}|{b}|{ai}|{bi}")); format!("ok {p}") } Ok(Err(_)) => "err".to_string(), Err(_) => "panic".to_string() };
+                if got == "panic" { rep.fail("oracle", "c08:lexi-panic", format!("fraction helper {kind} panicked on ({a:?}, {b:?}, {ai}, {bi})"), json!({"kind": "lexi"})); return; }
+                mb.push(format!("num lexi {kind} {} {} {} {}", dash(a), dash(b), ai as u8, bi as u8), got, tag);
+            };
+            // exhaustive: all digit strings up to length 3 for the one-sided helpers, all equal-length pairs up to length 2
+            let mut all: Vec<String> = vec![String::new()];
+            for l in 1..=3usize { for v in 0..10usize.pow(l as u32) { all.push(format!("{:0width$}", v, width = l)); } }
+            for x in all.iter().filter(|x| x.len() <= if case["n"].as_u64().unwrap() > 1000 { 3 } else { 2 }) {
+                for incl in [false, true] { push(0, x, "", incl, false, mb, rep); push(1, x, "", incl, false, mb, rep); }
+            }
+            for a in all.iter().filter(|x| x.len() <= 2) { for b in all.iter().filter(|x| x.len() == a.len()) {
+                if rng.chance(1, 4) { for (ai, bi) in [(false, false), (false, true), (true, false), (true, true)] { push(2, a, b, ai, bi, mb, rep); } }
+            } }
+            for _ in 0..case["n"].as_u64().unwrap() / 6 {
+                let n = 1 + rng.below(7);
+                let (a, b) = (digits(&mut rng, n), digits(&mut rng, n));
+                let k = rng.below(4);
+                push(0, a.trim_end_matches('0'), "", rng.chance(1, 2), false, mb, rep);
+                push(1, a.trim_end_matches('0'), "", rng.chance(1, 2), false, mb, rep);
+                push(2, &a, &b, k & 1 == 1, k & 2 == 2, mb, rep);
+                // close pairs: shared prefix
+                let p = rng.below(n);
+                let b2 = format!("{}{}", &a[..p], digits(&mut rng, n - p));
+                push(2, &a, &b2, k & 2 == 2, k & 1 == 1, mb, rep);
+            }
+            rep.sample(json!({"kind": "lexi"}));
         }
         "dec-near" => {
             // both bounds from a small lattice, so that equal integer parts, integer-valued bounds,
